@@ -31,6 +31,9 @@ type domSpec struct {
 	LenDom   map[string][2]int64 // value path (parameter or parameter.field) -> inclusive interval of its length
 	NonNil   map[string]bool     // value paths the domain guarantees non-nil
 	IntDom   map[string][2]int64 // integer parameter -> inclusive interval of its value
+	FieldLen map[string][2]int64 // Struct.Field (by type, whatever the access path) -> interval of its length
+	FieldInt map[string][2]int64 // Struct.Field -> interval of its integer value
+	Fits     bool                // "the value fits its wire field": a test X > 2^(8n)-1 (n = 1, 2, 4) is outside the domain
 	CallVals map[string][]int64  // method name -> the values its result takes on the domain (e.g. Type() of the one payload kind in scope)
 	LookupOK map[string]string   // callee -> why a nil result is outside the domain
 	EnvErr   map[string]string   // callee (full name, or "method:<name>") -> why its failure is outside the domain or decided elsewhere
@@ -91,6 +94,12 @@ func (s *domSpec) sig() string {
 	}
 	for k := range s.NonNil {
 		parts = append(parts, k+"!=nil")
+	}
+	for k, v := range s.FieldInt {
+		parts = append(parts, fmt.Sprintf("%s=%d..%d", k, v[0], v[1]))
+	}
+	for k, v := range s.FieldLen {
+		parts = append(parts, fmt.Sprintf("len(%s)=%d..%d", k, v[0], v[1]))
 	}
 	sort.Strings(parts)
 	return strings.Join(parts, ",")
@@ -205,6 +214,21 @@ func (d *domAn) domFacts(f *FA, spec *domSpec) []Fact {
 		for _, ins := range b.Instrs {
 			if v, ok := ins.(ssa.Value); ok {
 				add(v)
+				if fk, isF := fieldKeyOfLoad(v); isF {
+					if iv, ok := spec.FieldLen[fk]; ok {
+						l := f.SliceLen(v)
+						out = append(out, Fact{L: l.add(konst(iv[0]), -1)})
+						if iv[1] < INF {
+							out = append(out, Fact{L: konst(iv[1]).add(l, -1)})
+						}
+					}
+					if iv, ok := spec.FieldInt[fk]; ok {
+						if _, _, isInt := f.typeRange(v.Type()); isInt {
+							l := f.LFOf(v)
+							out = append(out, Fact{L: l.add(konst(iv[0]), -1)}, Fact{L: konst(iv[1]).add(l, -1)})
+						}
+					}
+				}
 			}
 		}
 	}
@@ -247,7 +271,8 @@ func factRefuted(f *FA, g Fact, facts []Fact) bool {
 func (d *domAn) calleeSpec(x *domFn, call *ssa.Call, m *ssa.Function) *domSpec {
 	base := d.specOf(m)
 	ns := &domSpec{ExactLenParam: base.ExactLenParam, ExactLenField: base.ExactLenField, ExactLenWhy: base.ExactLenWhy,
-		LenDom: map[string][2]int64{}, IntDom: map[string][2]int64{}, NonNil: map[string]bool{}, CallVals: base.CallVals, LookupOK: base.LookupOK, EnvErr: base.EnvErr, Rel: base.Rel}
+		LenDom: map[string][2]int64{}, IntDom: map[string][2]int64{}, NonNil: map[string]bool{}, CallVals: base.CallVals, LookupOK: base.LookupOK, EnvErr: base.EnvErr, Rel: base.Rel,
+		FieldLen: x.spec.FieldLen, FieldInt: x.spec.FieldInt, Fits: x.spec.Fits || base.Fits}
 	for k, v := range base.LenDom {
 		ns.LenDom[k] = v
 	}
@@ -546,6 +571,21 @@ func (d *domAn) guardRefuted(x *domFn, p *ssa.BasicBlock, succ int) (bool, strin
 				neg = "true"
 			}
 			return true, fmt.Sprintf("%s is always %s on the domain", text, neg)
+		}
+	}
+	if spec.Fits {
+		// X > 2^(8n)-1 (or X >= 2^(8n)) on the error side: the value does not fit its wire field
+		k, isK := bo.Y.(*ssa.Const)
+		if isK && k.Value != nil {
+			if kv, ok := constInt64(k.Value); ok {
+				lim := kv
+				if bo.Op == token.GEQ {
+					lim = kv - 1
+				}
+				if (bo.Op == token.GTR || bo.Op == token.GEQ) && succ == 0 && (lim == 0xFF || lim == 0xFFFF || lim == 0xFFFFFFFF) {
+					return true, "`" + text + "`: the value would not fit its wire field, which the domain excludes"
+				}
+			}
 		}
 	}
 	if succ == 0 {
@@ -1074,7 +1114,6 @@ func (c *Ctx) setterTotality(r *Report, prefix string) {
 		9, map[*ssa.Function]*domSpec{}, roots)
 }
 
-
 // loopPhiNonNil: ph is a φ at a loop header whose entry value is nil and whose loop-carried values are
 // objects (allocations, successful type assertions, interface wrappers). After the loop it is nil only if
 // the loop was left before its first iteration; that is refuted when the exit condition, with every header
@@ -1195,4 +1234,155 @@ func carriesObject(v ssa.Value, self *ssa.Phi, depth int) bool {
 		return true
 	}
 	return false
+}
+
+// ---- encoders on the encodable domain (C03) ----
+
+// encodeTotality: decode(encode(m)) = m for every m of the encodable domain presupposes that encode(m)
+// succeeds. Every error exit of every Marshal method (and of the container / message / header encoders)
+// must be unreachable for messages of the domain stated by C03's quantifier: the field lengths, counts and
+// selector types it names, and "every payload fits its length field" (tests of the form X > 2^(8n)-1).
+func (c *Ctx) encodeTotality(r *Report, prefix string) {
+	base := func() *domSpec {
+		return &domSpec{ExactLenParam: -1, Fits: true, NonNil: map[string]bool{},
+			FieldLen: map[string][2]int64{
+				"message.Proposal.SPI":                              {0, 255},
+				"message.Notification.SPI":                          {0, 255},
+				"message.TrafficSelectorInitiator.TrafficSelectors": {1, 255},
+				"message.TrafficSelectorResponder.TrafficSelectors": {1, 255},
+				"eap.EapIdentity.IdentityData":                      {1, INF},
+				"eap.EapNak.NakData":                                {1, INF},
+				"eap.EapNotification.NotificationData":              {1, INF},
+			},
+			FieldInt: map[string][2]int64{},
+			EnvErr: map[string]string{
+				"method:Marshal": "the nested record's own encoder is a root of this rule (or, for EAP-AKA', decided by C14's padding and setter rules)",
+				"method:Encode":  "the container encoder is a root of this rule",
+			},
+		}
+	}
+	var roots []domRoot
+	add := func(fn *ssa.Function, label string, tweak func(s *domSpec)) {
+		if fn == nil {
+			return
+		}
+		s := base()
+		for _, p := range fn.Params {
+			s.NonNil[p.Name()] = true
+		}
+		if tweak != nil {
+			tweak(s)
+		}
+		roots = append(roots, domRoot{Fn: fn, Spec: s, Label: label})
+	}
+	for _, spec := range []struct{ rel, iface string }{{"message", "IKEPayload"}, {"eap", "EapTypeData"}} {
+		nt := c.NamedType(spec.rel, spec.iface)
+		if nt == nil {
+			continue
+		}
+		for _, T := range c.Implementers(nt.Underlying().(*types.Interface)) {
+			rec := strings.TrimPrefix(typeKey(T), "*")
+			m := c.methodOf(T, "Marshal")
+			if m == nil {
+				continue
+			}
+			switch rec {
+			case "message.Encrypted", "eap.EapAkaPrime":
+				continue // SK bodies are built by the protect path (C06); EAP-AKA' is C14's
+			case "message.TrafficSelectorInitiator", "message.TrafficSelectorResponder":
+				for _, in := range []struct{ t, n int64 }{{7, 4}, {8, 16}} {
+					in := in
+					add(m, fmt.Sprintf("selectors of type %d", in.t), func(s *domSpec) {
+						s.FieldInt["message.IndividualTrafficSelector.TSType"] = [2]int64{in.t, in.t}
+						s.FieldLen["message.IndividualTrafficSelector.StartAddress"] = [2]int64{in.n, in.n}
+						s.FieldLen["message.IndividualTrafficSelector.EndAddress"] = [2]int64{in.n, in.n}
+					})
+				}
+			case "message.SecurityAssociation":
+				for _, format := range []int64{0, 1} {
+					format := format
+					add(m, fmt.Sprintf("attribute format %d", format), func(s *domSpec) {
+						s.FieldInt["message.Transform.AttributeFormat"] = [2]int64{format, format}
+						if format == 0 {
+							s.FieldLen["message.Transform.VariableLengthAttributeValue"] = [2]int64{1, INF}
+						}
+						s.Rel = func(f *FA) []Fact {
+							// every proposal lists at least one transform: the five lists together are not empty
+							sum := konst(-1)
+							n := 0
+							for _, b := range f.Fn.Blocks {
+								for _, ins := range b.Instrs {
+									v, ok := ins.(ssa.Value)
+									if !ok {
+										continue
+									}
+									if _, isLoad := v.(*ssa.UnOp); !isLoad {
+										continue
+									}
+									if fk, ok := fieldKeyOfLoad(v); ok {
+										switch fk {
+										case "message.Proposal.EncryptionAlgorithm", "message.Proposal.PseudorandomFunction", "message.Proposal.IntegrityAlgorithm", "message.Proposal.DiffieHellmanGroup", "message.Proposal.ExtendedSequenceNumbers":
+											sum = sum.add(f.SliceLen(v), 1)
+											n++
+										}
+									}
+								}
+							}
+							if n != 5 {
+								return nil
+							}
+							return []Fact{{L: sum}}
+						}
+					})
+				}
+			case "message.Delete":
+				add(m, "", func(s *domSpec) {
+					s.Rel = func(f *FA) []Fact {
+						var ls, nv *LF
+						for _, b := range f.Fn.Blocks {
+							for _, ins := range b.Instrs {
+								v, ok := ins.(ssa.Value)
+								if !ok {
+									continue
+								}
+								if fk, ok := fieldKeyOfLoad(v); ok {
+									if fk == "message.Delete.SPIs" && ls == nil {
+										l := f.SliceLen(v)
+										ls = &l
+									}
+									if fk == "message.Delete.NumberOfSPI" && nv == nil {
+										l := f.LFOf(v)
+										nv = &l
+									}
+								}
+							}
+						}
+						if ls == nil || nv == nil {
+							return nil
+						}
+						d := ls.add(*nv, -1)
+						return []Fact{{L: d}, {L: d.scale(-1)}}
+					}
+				})
+			default:
+				add(m, "", nil)
+			}
+		}
+	}
+	add(c.Method("message", "IKEPayloadContainer", "Encode"), "", nil)
+	add(c.Method("message", "IKEMessage", "Encode"), "", nil)
+	add(c.Method("message", "IKEHeader", "Marshal"), "", nil)
+	add(c.Method("eap", "EAP", "Marshal"), "", nil)
+	rule := prefix + "encode-total-on-domain"
+	// encoders without any error exit are fine by construction: report only those that have one
+	var withExits []domRoot
+	d := &domAn{c: c, specs: map[*ssa.Function]*domSpec{}, memo: map[string]domVerdict{}, stack: map[string]bool{}}
+	for _, rt := range roots {
+		if len(d.failureExits(rt.Fn, rt.Spec, "error", -1)) > 0 {
+			withExits = append(withExits, rt)
+		}
+	}
+	c.domainTotalRoots(r, rule,
+		"no error exit of a Marshal method, of the container / message / header encoders or of EAP.Marshal is reachable for a message of the encodable domain (C03's quantifier: SPIs <= 255 octets, 1..255 selectors of type 7 with 4-octet or type 8 with 16-octet addresses, >= 1 transform per proposal, non-empty TLV values, Delete count = number of SPIs, non-empty EAP identity / nak / notification data, every length fits its field): each is behind a test refuted by linear arithmetic over those facts, a 'does not fit its field' test, or the failure of a nested encoder that is itself a root",
+		25, map[*ssa.Function]*domSpec{}, withExits)
 }
